@@ -543,8 +543,18 @@ func (e *Engine) applyCall(st *State, fr *Frame, instr ssa.Instruction, c *ssa.C
 	// unknown callee
 	e.havocCalls[name]++
 	inRepoCallee := fn != nil && fn.Pkg != nil && strings.HasPrefix(fn.Pkg.Pkg.Path(), modPath)
-	if inRepoCallee || (c.IsInvoke() && inRepo(c.Value.Type())) {
+	if inRepoCallee {
 		e.havocAll(st)
+	} else if c.IsInvoke() && inRepo(c.Value.Type()) && e.ifaceHasRepoImpl(c.Value.Type()) {
+		// interface declared in the module: the callee is one of the module's implementations (their inferred
+		// frames are applied) or user code (no effect on module state)
+		impls := e.repoImplsOf(c.Value.Type(), c.Method.Name())
+		if len(impls) == 0 {
+			e.havocAll(st)
+		}
+		for _, f := range impls {
+			e.applyMods(st, fr, e.fnMods(f), false)
+		}
 	}
 	for _, a := range allArgs {
 		e.havocPointee(st, a)
@@ -1226,7 +1236,7 @@ func (e *Engine) scanMods(ms *modSet, fn *ssa.Function, blocks map[*ssa.BasicBlo
 					name := "(" + typeKey(c.Value.Type()) + ")." + c.Method.Name()
 					ms.callees[simpleName(name)] = true
 					ms.full[name] = true
-					if inRepo(c.Value.Type()) {
+					if inRepo(c.Value.Type()) && e.ifaceHasRepoImpl(c.Value.Type()) {
 						if ct := e.contractFor(name); ct != nil && ct.HasMod {
 							e.addContractMods(ms, ct)
 						} else {
@@ -1730,4 +1740,60 @@ func (e *Engine) checkClassified(st *State, fr *Frame, loc *Loc, pos token.Pos) 
 		return
 	}
 	e.oblige(st, "guard", "unclassified shared field "+cls, "false", []string{"C14"}, pos)
+}
+
+// ifaceHasRepoImpl: does any named type of the verified module implement this (module-declared) interface?
+// Interfaces implemented only by user code (error codecs, marshalable errors) are treated like external calls.
+func (e *Engine) ifaceHasRepoImpl(t types.Type) bool {
+	it, ok := t.Underlying().(*types.Interface)
+	if !ok {
+		return false
+	}
+	k := typeKey(t)
+	if v, ok := e.ifaceImplCache[k]; ok {
+		return v
+	}
+	res := false
+	for _, p := range e.repoPkgs {
+		sc := p.Scope()
+		for _, n := range sc.Names() {
+			tn, ok := sc.Lookup(n).(*types.TypeName)
+			if !ok || isInterface(tn.Type()) {
+				continue
+			}
+			if types.Implements(tn.Type(), it) || types.Implements(types.NewPointer(tn.Type()), it) {
+				res = true
+			}
+		}
+	}
+	e.ifaceImplCache[k] = res
+	return res
+}
+
+func (e *Engine) repoImplsOf(t types.Type, method string) []*ssa.Function {
+	it, ok := t.Underlying().(*types.Interface)
+	if !ok {
+		return nil
+	}
+	var out []*ssa.Function
+	for _, p := range e.repoPkgs {
+		sc := p.Scope()
+		for _, n := range sc.Names() {
+			tn, ok := sc.Lookup(n).(*types.TypeName)
+			if !ok || isInterface(tn.Type()) {
+				continue
+			}
+			for _, recv := range []types.Type{tn.Type(), types.NewPointer(tn.Type())} {
+				if !types.Implements(recv, it) {
+					continue
+				}
+				if sel := e.prog.MethodSets.MethodSet(recv).Lookup(p, method); sel != nil {
+					if f := e.prog.MethodValue(sel); f != nil && len(f.Blocks) > 0 {
+						out = append(out, f)
+					}
+				}
+			}
+		}
+	}
+	return out
 }
